@@ -464,6 +464,9 @@ type Interp struct {
 	// well. It is asked once per such point and answers whether this run takes
 	// the optional fetch.
 	FastPair func(second *Node) bool
+	// IfLazy makes Strict evaluate only the taken branch of an `if` (every
+	// and/or operand is still evaluated): "every reachable operand".
+	IfLazy bool
 }
 
 // Applied is one operator application as the reference evaluation performs it.
@@ -582,6 +585,18 @@ func (it *Interp) Strict(n *Node) (interface{}, error) {
 		c, err := it.Strict(n.Args[0])
 		if err != nil {
 			return nil, err
+		}
+		if it.IfLazy {
+			// only what is reachable: the branch not taken is never evaluated
+			// under any configuration
+			cb, ok := c.(bool)
+			if !ok {
+				return berr("if", "non-boolean condition")
+			}
+			if cb {
+				return it.Strict(n.Args[1])
+			}
+			return it.Strict(n.Args[2])
 		}
 		a, err := it.Strict(n.Args[1])
 		if err != nil {
